@@ -51,15 +51,64 @@ def run(ctx):
             if k != 'ev':
                 ctx.extra.setdefault('operators_proposed', {})[k] = ctx.extra.get('operators_proposed', {}).get(k, 0) + v
         ctx.sample({'kind': 'checker case', 'case': next(e for e in evs if e.get('ev') == 'case' and e['has_op'] and len(e['steps']) > 1)})
+    # closed loop (beyond the listed clauses): checker -> operator controller -> stores -> heartbeat -> checker until nothing is left to repair
+    for sd in seeds:
+        tr = os.path.join(ctx.dir, 'loop_%d.ndjson' % sd)
+        vlib.run_harness(['checker', 'loop', 'out=' + tr, 'seed=%d' % sd, 'cases=%d' % (600 if q else 3000)], timeout=3000)
+        bad, evs = ctx.monitor_all('checker', 'Mon_RepairLoop', 'Mon_RepairLoop.cfg', tr, 'loop_%d' % sd, timeout=6000)
+        seen = set()
+        for b in bad:
+            if b[1] in seen:
+                continue
+            seen.add(b[1])
+            lo = b[2] - 1
+            while lo > 0 and evs[lo].get('ev') != 'reset':
+                lo -= 1
+            one = os.path.join(ctx.dir, 'viol_loop_%d_%d.ndjson' % (sd, b[0]))
+            with open(one, 'w') as f:
+                for e in evs[lo:b[2]]:
+                    f.write(json.dumps(e) + '\n')
+            ctx.report(b[1], None, one, None, None, 'loop_%d_case%d_%s' % (sd, b[0], b[1]))
+        for k, v in evs[-1].items():
+            if k != 'ev':
+                ctx.extra.setdefault('closed_loop', {})[k] = ctx.extra.get('closed_loop', {}).get(k, 0) + v
+    # the merge checker (beyond the listed clauses, same family): Merge.tla judges every proposal
+    for sd in seeds:
+        tr = os.path.join(ctx.dir, 'merge_%d.ndjson' % sd)
+        vlib.run_harness(['checker', 'merge', 'out=' + tr, 'seed=%d' % sd, 'cases=%d' % (600 if q else 3000)], timeout=3000)
+        bad, evs = ctx.monitor_all('operator+checker', 'Merge', 'Merge.cfg', tr, 'merge_%d' % sd, timeout=6000)
+        seen = set()
+        for b in bad:
+            if b[1] in seen:
+                continue
+            seen.add(b[1])
+            one = os.path.join(ctx.dir, 'viol_merge_%d_%d.ndjson' % (sd, b[2]))
+            with open(one, 'w') as f:
+                f.write(json.dumps({'ev': 'reset', 'beh': 0, 'mode': 'merge'}) + '\n' + json.dumps(evs[b[2] - 1]) + '\n')
+            ctx.report(b[1], None, one, None, None, 'merge_%d_call%d_%s' % (sd, b[0], b[1]))
+        ctx.extra['merge_checker_calls'] = ctx.extra.get('merge_checker_calls', 0) + evs[-1]['checked']
+        ctx.extra['merges_proposed'] = ctx.extra.get('merges_proposed', 0) + evs[-1]['merges_proposed']
     return ctx.finish(rule='Repair.tla states the C10 clauses over (stores as the filters see them, region peers with down/pending lists, settings or rules + real fit, '
                            'proposed operator); seeded clusters of 4-9 stores in every state (down, offline, offline+down, tombstone, disconnected, busy, low space, '
                            'snapshots, pending peers, fresh; zone/host/disk/engine labels), regions of 1-5 peers (learners, long/short down peers, pending), '
                            'max-replicas 1-5, location labels and isolation levels, 1-2 placement rules with constraints, joint consensus on/off, are given '
-                           'to the real ReplicaChecker.Check / RuleChecker.Check; TLC evaluates every case')
+                           'to the real ReplicaChecker.Check / RuleChecker.Check; TLC evaluates every case. Closed loop: the real CheckerController and '
+                           'OperatorController repair one region through the command-executing store simulator until the checker is satisfied; '
+                           'Mon_RepairLoop.tla requires success of every operator, no transient dip of healthy voters, convergence and no joint state left')
 
 
 def replay(ctx, path):
     tr = os.path.join(path, 'trace.ndjson')
+    if any(e.get('ev') == 'merge' for e in vlib.read_ndjson(tr)):
+        bad, evs = ctx.monitor_all('operator+checker', 'Merge', 'Merge.cfg', tr, 'replay')
+        for b in bad[:1]:
+            ctx.report(b[1], None, tr, None, None, 'replay_%s' % b[1])
+        return ctx.finish()
+    if any(e.get('ev') == 'propose' for e in vlib.read_ndjson(tr)):
+        bad, evs = ctx.monitor_all('checker', 'Mon_RepairLoop', 'Mon_RepairLoop.cfg', tr, 'replay')
+        for b in bad[:1]:
+            ctx.report(b[1], None, tr, None, None, 'replay_%s' % b[1])
+        return ctx.finish()
     bad, evs = ctx.monitor_all('placement+checker', 'Repair', 'Repair.cfg', tr, 'replay')
     handle(ctx, bad, evs, 'replay')
     return ctx.finish()
